@@ -69,6 +69,11 @@ def facets(tier):
                    ('Long', T('Long')), ('Int', T('Int')), ('UnsignedInt', T('UnsignedInt')), ('UnsignedLong', T('UnsignedLong')),
                    ('Int(ge)', T('Int', ge=100)), ('Byte(le)', T('Byte', le=100)), ('UnsignedByte(gt)', T('UnsignedByte', gt=10))]:
         add(fid, t, [('num:%s' % v, v) for v in _numeric_probe(t)] + [('raw:%s' % r.text, r) for r in bad_int[:4]])
+    # a bound that sits exactly on the limit of a fixed-width type (exclusive: the limit value itself is out)
+    for name, lo, hi in (('Byte', -128, 127), ('UnsignedByte', 0, 255), ('Short', -32768, 32767), ('UnsignedInt', 0, 4294967295)):
+        for k, bound in (('gt', lo), ('ge', lo), ('lt', hi), ('le', hi)):
+            t = T(name, **{k: bound})
+            add('%s(%s=limit)' % (name, k), t, [('num:%s' % v, v) for v in _numeric_probe(t)])
     wide8 = list(range(-128 - 16, 127 + 17))
     add('Byte', T('Byte'), [('num', v) for v in wide8])
     add('UnsignedByte', T('UnsignedByte'), [('num', v) for v in range(-16, 255 + 17)])
@@ -153,6 +158,14 @@ def facets(tier):
         if base == 'Unicode':
             vals.append(('empty', ''))
         add(fid, t, vals)
+    # a declared default does not make a non-nillable slot nillable (what an ABSENT member with a default hands to the
+    # function is not part of the property: not sent; a mandatory member with a default is a contradiction XSD cannot
+    # express for attributes - use="required" excludes default= - and is not generated)
+    for fid, t in [('Integer(nillable=False,default)', T('Integer', nillable=False, default=7)),
+                   ('Unicode(nillable=False,default)', T('Unicode', nillable=False, default='dflt')),
+                   ('Integer(ge,default)', T('Integer', ge=3, nillable=False, default=7))]:
+        ok = 'x' if t[1] == 'Unicode' else 5
+        add(fid, t, [('value', ok), ('nil', Nil)] + ([('below', 2)] if 'ge' in t[2] else []))
     return F
 
 
